@@ -430,6 +430,10 @@ enum Item {
     Whole(Ct, usize),
     /// laws and histories over the maximal-length menu (`long_pool`)
     Long(Ct),
+    /// every pool member against every proper prefix of itself taken as a
+    /// sub-slice of the same buffer (operands that share their start address),
+    /// in both orders, and against a separately allocated copy of itself
+    Alias(Ct),
 }
 
 /// RDATA at the upper end of the 16-bit length range (the RdataSet stores a
@@ -508,6 +512,7 @@ pub fn run(ctx: Ctx) -> ! {
         if LONG_CTS.contains(&ct.label) {
             items.push(Item::Long(*ct));
         }
+        items.push(Item::Alias(*ct));
     }
     ctx.set_extra("pool_sizes", json!(pool_sizes.iter().map(|(k, v)| json!([k, v])).collect::<Vec<_>>()));
     let k = (ctx.seed as usize) % items.len().max(1);
@@ -526,6 +531,16 @@ pub fn run(ctx: Ctx) -> ! {
                 // windows wrap around so that the last members also meet the first
                 let menu: Vec<&[u8]> = (0..WINDOW.min(p.len())).map(|i| &p[(w + i) % p.len()][..]).collect();
                 histories(l, *ct, &menu, window_depth, &mut st);
+            }
+            Item::Alias(ct) => {
+                for r in pool(*ct, rich) {
+                    let copy = r.clone();
+                    check_pair(l, *ct, &r[..], &copy[..]);
+                    for k in 0..r.len() {
+                        check_pair(l, *ct, &r[..], &r[..k]);
+                        check_pair(l, *ct, &r[..k], &r[..]);
+                    }
+                }
             }
             Item::Long(ct) => {
                 let p = long_pool(*ct);
@@ -570,7 +585,7 @@ fn finish(ctx: Ctx, st: SetStats) -> ! {
     ctx.assume("TSIG RDATA that differ only in the ASCII case of the algorithm name: either answer accepted (meta-RR, statement silent); the equivalence laws are still required");
     ctx.finish(
         "exploration",
-        "28 class/type combinations. Per combination a pool of RDATA = product over the layout's fields of: name candidates {a., A., b., ., a.b., A.B. | malformed: truncated (2 cases), label type 0x40, pointer} (thorough adds a.B., ab., aB., another truncation, empty), trailing junk {none, j, J} after a last name, fixed fields {00.., ..01, 80.. | too short, too long}; name-free and opaque types a pool of 12-16 octet strings incl. case variants. Rdata::equals on every ordered pair vs the reference (octet-wise unless both operands well formed for a name-bearing pre-RFC 3597 type, then embedded names ASCII-case-insensitive); reflexive, symmetric; transitive on every ordered triple. RdataSetOwned: every insertion sequence of length <= 4 (thorough 5) over 6-member menus sliding (stride 3, wrapping) over the pool in two orderings (generation order; case variants adjacent) and every sequence of length <= 2 (thorough 3 for pools <= 150) over the whole pool, via From+insert (return values checked) and via from_iter, vs keep-first-of-each-class in insertion order; plus, for 6 class/type combinations, laws and every insertion sequence of length <= 3 over a 6-member menu of maximal-length RDATA (65 535 / 65 534 / 65 533 octets, case variants)",
+        "28 class/type combinations. Per combination a pool of RDATA = product over the layout's fields of: name candidates {a., A., b., ., a.b., A.B. | malformed: truncated (2 cases), label type 0x40, pointer} (thorough adds a.B., ab., aB., another truncation, empty), trailing junk {none, j, J} after a last name, fixed fields {00.., ..01, 80.. | too short, too long}; name-free and opaque types a pool of 12-16 octet strings incl. case variants. Rdata::equals on every ordered pair (separately allocated operands; and every member against every prefix of itself as a sub-slice of the same buffer) vs the reference (octet-wise unless both operands well formed for a name-bearing pre-RFC 3597 type, then embedded names ASCII-case-insensitive); reflexive, symmetric; transitive on every ordered triple. RdataSetOwned: every insertion sequence of length <= 4 (thorough 5) over 6-member menus sliding (stride 3, wrapping) over the pool in two orderings (generation order; case variants adjacent) and every sequence of length <= 2 (thorough 3 for pools <= 150) over the whole pool, via From+insert (return values checked) and via from_iter, vs keep-first-of-each-class in insertion order; plus, for 6 class/type combinations, laws and every insertion sequence of length <= 3 over a 6-member menu of maximal-length RDATA (65 535 / 65 534 / 65 533 octets, case variants)",
         true,
     )
 }
